@@ -38,7 +38,8 @@
  * and once ALONE (every thread's workload in a thread of its own on a fresh context with a fresh shared tree); the per
  * operation results (return codes, FNV hashes of printed output, paths, error code/message/path/apptag) must be equal.
  *
- * Output (one line): ok | DIFF r<rep>t<thread>o<op>:<op text>:<concurrent>!=<alone>
+ * Output (one line; HANG when a case does not finish within 20 s, 60 s under ThreadSanitizer):
+ *   ok | DIFF r<rep>t<thread>o<op>:<op text>:<concurrent>!=<alone>
  *   dict=<strings after setup>:<strings after everything of the last rep was freed>
  *   leak=<not-freed warnings>:<of them: cached canonical strings of shared-tree values (case not warm)>
  *   lock=<table accesses checked>:<accesses without the table's lock held>   (dict.hash_tab under dict.lock, err_ht under
@@ -54,6 +55,7 @@
 #include <errno.h>
 #include <fcntl.h>
 #include <pthread.h>
+#include <signal.h>
 #include <time.h>
 #include <unistd.h>
 
@@ -1156,6 +1158,18 @@ free_docs(void)
     ndocs = 0;
 }
 
+/* watchdog: a case that does not finish (e.g. threads looping in a corrupted table) answers HANG and ends the process;
+ * the harness continues with the next case in a new process */
+static void
+on_alarm(int sig)
+{
+    (void)sig;
+    if (write(1, "HANG\n", 5) < 0) {
+        _exit(4);
+    }
+    _exit(3);
+}
+
 int
 main(void)
 {
@@ -1170,8 +1184,15 @@ main(void)
         return 2;
     }
 
+    signal(SIGALRM, on_alarm);
     while (vnext(&c)) {
         int nthr, reps, sh, nd, base;
+
+#ifdef CONC_TSAN
+        alarm(60);
+#else
+        alarm(20);
+#endif
         char diff[512] = "";
 
         if (strcmp(c.f[0], "conc") || (c.nf < 6)) {
